@@ -27,7 +27,7 @@ pub fn run(args: &[String]) -> i32 {
     let cases = arg(args, "--cases").expect("--cases");
     let walks = arg(args, "--walks").expect("--walks");
     let out_path = arg(args, "--out").expect("--out");
-    let (contents, _) = Contents::load(arg(args, "--contents").unwrap_or("/verif/data/contents.json"));
+    let (contents, _) = Contents::load(&arg(args, "--contents").map(|s| s.to_string()).unwrap_or_else(crate::util::contents_default));
 
     // bodies per type from the generated walks (kept only if the typed API accepts them)
     let mut bodies: BTreeMap<String, Vec<(Value, String)>> = BTreeMap::new();
